@@ -629,7 +629,7 @@ class GBNFCompiler:
                 pattern = "[^\\n]*"
 
             # Create field rule: field-name ::= "FIELD_NAME" "::" ws pattern
-            rules.append(f'{rule_name} ::= "{field_name}" "::" ws {pattern}')
+            rules.append(f'{rule_name} ::= "{self._escape_literal(field_name)}" "::" ws {pattern}')
 
         rules.append("")
 
@@ -647,7 +647,7 @@ class GBNFCompiler:
         # Build document structure
         if include_envelope:
             schema_name = schema.name.upper()
-            rules.append(f'envelope-start ::= "==={schema_name}==="')
+            rules.append(f'envelope-start ::= "==={self._escape_literal(schema_name)}==="')
             rules.append('envelope-end ::= "===END==="')
             rules.append("")
             rules.append('meta-block ::= "META:" ws meta-content')
